@@ -4,15 +4,12 @@ import SparseV.Props.C18
 #print axioms SparseV.C18.rejects_iff_numpy_rejects_axes
 #print axioms SparseV.C18.rejects_iff_numpy_rejects_transpose
 #print axioms SparseV.C18.rejects_iff_numpy_rejects_broadcast
-#print axioms SparseV.C18.reshape_counterexample_several_unknown
-#print axioms SparseV.C18.reshape_counterexample_overflow
-#print axioms SparseV.C18.reshape_counterexample_other_negative
-#print axioms SparseV.C18.not_Statement_rejects_iff_numpy_rejects_reshape
-#print axioms SparseV.C18.rejects_iff_numpy_rejects_reshape_partial
-#print axioms SparseV.C18.reshape_error_classes
-#print axioms SparseV.C18.ctor_counterexample
-#print axioms SparseV.C18.not_Statement_ctor_rejects_malformed
-#print axioms SparseV.C18.ctor_rejects_malformed_partial
+#print axioms SparseV.C18.rejects_iff_numpy_rejects_reshape
+#print axioms SparseV.C18.reshape_rejects_what_numpy_rejects
+#print axioms SparseV.C18.reshape_retired_witnesses_rejected
+#print axioms SparseV.C18.reshape_other_negative_stricter
+#print axioms SparseV.C18.ctor_rejects_malformed
+#print axioms SparseV.C18.ctor_retired_witness_rejected
 #print axioms SparseV.C18.linear_filter_loop_terminates
 #print axioms SparseV.C18.binary_search_loop_terminates
 #print axioms SparseV.C18.get_slicing_selection_terminates
